@@ -118,6 +118,16 @@ class C03(common.Prop):
                 wk, args = self.gen_window(rng, F, fps32, hdr_end, P * T * (D + 1) * 4)
                 yield {"file": data, "F": F, "P": P, "T": T, "D": D, "hdr_end": hdr_end, "args": args, "wkind": wk,
                        "src": rng.choice(["bytes", "stream", "stream"]), "memo": rng.choice(["empty", "same", "other"])}
+            if i % 3 == 1 and F >= 1 and P >= 1 and T >= 1:
+                # the same content in the v0.1 layout (16-bit fps / frame-count / people fields; the frame count is taken from the
+                # file size, so the 16-bit field may hold anything): the window clause speaks about every file.  These cases are
+                # judged by the oracle only (the byte-layer runner has no legacy decoders; the theorems for them are C04's).
+                for j in range(5):
+                    field = rng.choice([F % 65536, 0, 65535, (F * 3 + 1) % 65536, max(0, F - 1)])
+                    twin = list(pg.V01_WORD) + data[4:hdr_end] + list(struct.pack("<HHH", 25, field, P)) + data[hdr_end + 10:]
+                    wk, args = self.gen_window(rng, F, 25.0, hdr_end, P * T * (D + 1) * 4)
+                    yield {"file": twin, "F": F, "P": P, "T": T, "D": D, "hdr_end": hdr_end, "args": args, "wkind": wk, "v01": True,
+                           "src": rng.choice(["bytes", "stream"]), "memo": rng.choice(["empty", "same"])}
         if tier == "thorough":
             # every (s, e) window of a few short files, both sources
             for k in range(6):
@@ -142,7 +152,8 @@ class C03(common.Prop):
         if s is not None:
             off = pf + s * per
             cls = "start-inside-prefetch" if off < PREFETCH_DEFAULT else "start-beyond-prefetch"
-        return (case["wkind"], case["src"], case["memo"], "big" if big else "small", cls, "longhdr" if case["hdr_end"] > 10240 else "")
+        return (case["wkind"], case["src"], case["memo"], "big" if big else "small", cls,
+                "v0.1-twin" if case.get("v01") else ("longhdr" if case["hdr_end"] > 10240 else ""))
 
     def nontrivial(self, case):
         return bool(case["args"])
@@ -158,6 +169,8 @@ class C03(common.Prop):
 
     # ------------------------------------------------------------------ model
     def run_model(self, case, runner):
+        if case.get("v01"):
+            return None
         files = [case["file"], self.other]
         ops = []
         if case["memo"] == "same":
